@@ -200,6 +200,7 @@ type Engine struct {
 	NoValidate  bool
 	callDepth   int
 	Deadline    time.Time
+	axioms      map[string]bool
 }
 
 type intrinsic func(e *Engine, st *State, call *ssa.CallCommon, args []Value) Value
@@ -826,8 +827,12 @@ func (e *Engine) feasible(st *State, c *Term) (bool, bool) {
 	if indep && c.Op != "and" && c.Op != "or" && c.Op != "ite" && c.Op != "not" {
 		return true, true
 	}
+	// the path condition is satisfiable (invariant of every live state), so if one side is infeasible the other is feasible
 	t := e.S.Check(st.pc, c) != Unsat
 	e.S.EndModel()
+	if !t {
+		return false, true
+	}
 	f := e.S.Check(st.pc, Not(c)) != Unsat
 	e.S.EndModel()
 	return t, f
@@ -836,6 +841,9 @@ func (e *Engine) feasible(st *State, c *Term) (bool, bool) {
 // strID returns the identity term of a string that takes part in an atom comparison.
 func (e *Engine) strID(s StringVal) *Term {
 	if s.Atom != nil {
+		if s.Pre != "" || s.Suf != "" {
+			unsupported("identity of a decorated atom %q+atom+%q", s.Pre, s.Suf)
+		}
 		return s.Atom
 	}
 	c, ok := s.Concrete()
@@ -887,6 +895,9 @@ func (e *Engine) valuesEq(a, b Value) *Term {
 	case StringVal:
 		y := b.(StringVal)
 		if x.Atom != nil || y.Atom != nil {
+			if x.Atom != nil && y.Atom != nil && x.Pre == y.Pre && x.Suf == y.Suf {
+				return Eq(x.Atom, y.Atom)
+			}
 			return Eq(e.strID(x), e.strID(y))
 		}
 		if len(x.Bytes) != len(y.Bytes) {
@@ -971,6 +982,24 @@ func (e *Engine) binop(st *State, op token.Token, a, b Value, typ types.Type) Va
 		sb := b.(StringVal)
 		switch op {
 		case token.ADD:
+			if sa.Atom != nil || sb.Atom != nil {
+				// rope of concrete text around one atom
+				if sa.Atom != nil && sb.Atom == nil {
+					if c, ok := sb.Concrete(); ok {
+						r := sa
+						r.Suf = sa.Suf + c
+						return r
+					}
+				}
+				if sb.Atom != nil && sa.Atom == nil {
+					if c, ok := sa.Concrete(); ok {
+						r := sb
+						r.Pre = c + sb.Pre
+						return r
+					}
+				}
+				unsupported("concatenation of two atoms")
+			}
 			return StringVal{Bytes: append(append([]*Term(nil), sa.Bytes...), sb.Bytes...)}
 		case token.LSS:
 			return stringLess(sa, sb)
